@@ -84,12 +84,33 @@ func (fc *FnCtx) callModTargets(st *State, call *ast.CallExpr, stableBase func(a
 	switch callee.FullName() {
 	case "(*sync.Mutex).Lock", "(*sync.RWMutex).Lock", "(*sync.RWMutex).RLock", "(sync.Locker).Lock", "(*sync.Cond).Wait":
 		out := []modTarget{{"$held", ""}}
-		if mi := fc.lockTargetStatic(call); mi != nil {
+		mi := fc.lockTargetStatic(call)
+		if mi != nil && callee.FullName() == "(*sync.Cond).Wait" {
+			// x.cond.Wait(): the static target is the condition variable's field; the state that may change while
+			// waiting is that of the monitor the `cond T.c uses T.mu` declaration names (Wait releases and
+			// re-acquires T.mu), plus the ghost counters of the condition variable
+			out = append(out, modTarget{"$condsleep", ""}, modTarget{"$condwoken", ""})
+			if n, ok := mi.owner.(*types.Named); ok && mi.cs != nil {
+				for _, c := range mi.cs.Conds {
+					if c.Type == n.Obj().Name() && c.Field == mi.field {
+						mi.field = c.MuField
+						mi.mon = nil
+						for _, m := range mi.cs.Monitors {
+							if m.Type == c.Type && m.MuField == c.MuField {
+								mi.mon = m
+							}
+						}
+					}
+				}
+			}
+		}
+		if mi != nil {
 			for _, g := range fc.guardedFieldsOf(mi) {
 				ot := fc.resolveType(g.Type, mi.owner.(*types.Named).Obj().Pkg())
 				out = append(out, modTarget{fc.fieldKey(ot, g.Field), ""})
 			}
-			if mi.mon != nil {
+			if mi.mon != nil && !(callee.FullName() == "(*sync.Cond).Wait" && fc.mtDepth == 0) {
+				// (a Cond.Wait directly in a loop: havocLoop havocs the monitor's regions precisely)
 				for _, h := range mi.mon.Havoc {
 					out = append(out, modTarget{"region:" + h, ""})
 				}
